@@ -242,7 +242,7 @@ func readViaStorage(file []byte) string {
 // 16383/16384 bytes of CID + data), where framing code that sizes buffers from the length can slip.
 func boundaryBlocks(g *Gen) []Blk {
 	var out []Blk
-	for _, L := range []int{127, 128, 16383, 16384} {
+	for _, L := range []int{127, 128, 129, 16383, 16384, 16385} {
 		d := g.bytes(L - 36)
 		h, _ := mh.Sum(d, mh.SHA2_256, -1)
 		out = append(out, Blk{cid.NewCidV1(cid.Raw, h), d})
